@@ -335,15 +335,29 @@ func TestErrors(t *testing.T) {
 		}
 		// WithData never modifies its receiver
 		for _, d := range []any{nil, 1, "x", map[string]int{"a": 1}, make(chan int), math.NaN(), json.RawMessage(`{"k": [1, 2]}`)} {
-			base := &jrpc2.Error{Code: 7, Message: "m", Data: json.RawMessage(`"orig"`)}
-			cp := *base
-			w := base.WithData(d)
-			res.Evaluations++
-			if base.Code != cp.Code || base.Message != cp.Message || string(base.Data) != string(cp.Data) {
-				add(fmt.Sprint(d), "WithData", fmt.Sprintf("receiver modified: %+v", base))
-			}
-			if w == nil || w.Code != 7 || w.Message != "m" {
-				add(fmt.Sprint(d), "WithData", fmt.Sprintf("result %+v", w))
+			// receivers with data of several capacities (a receiver whose data has room to spare is the interesting one),
+			// and one without; the snapshot is a string: a struct copy would share the data's backing array
+			for _, orig := range []json.RawMessage{json.RawMessage(`"orig"`), append(make(json.RawMessage, 0, 64), `{"detail":"the default text"}`...), nil} {
+				base := &jrpc2.Error{Code: 7, Message: "m", Data: orig}
+				snap := string(base.Data)
+				w := base.WithData(d)
+				res.Evaluations++
+				if base.Code != 7 || base.Message != "m" || string(base.Data) != snap {
+					add(fmt.Sprint(d), "WithData", fmt.Sprintf("receiver modified: data %q is now %q", snap, base.Data))
+				}
+				if w == nil || w.Code != 7 || w.Message != "m" {
+					add(fmt.Sprint(d), "WithData", fmt.Sprintf("result %+v", w))
+				} else if want, err := json.Marshal(d); err == nil && d != nil && w != base && !jsonEqual(w.Data, want) {
+					add(fmt.Sprint(d), "WithData", fmt.Sprintf("result data %q, want %q", w.Data, want))
+				}
+				// a second derivation from the same receiver must not disturb the first one
+				if w != nil {
+					wsnap := string(w.Data)
+					base.WithData("zz")
+					if string(w.Data) != wsnap || string(base.Data) != snap {
+						add(fmt.Sprint(d), "WithData", fmt.Sprintf("a later WithData changed earlier values: %q -> %q, receiver %q", wsnap, w.Data, base.Data))
+					}
+				}
 			}
 		}
 		// a result that cannot be marshalled becomes an error response, never a malformed or missing one
